@@ -21,9 +21,26 @@ Reading of the clauses:
 * "a hall of fame has been shown every evaluated individual" → `hof_fed`
 * "μ+λ with truncation selection: best never gets worse"   → `plus_monotone`
 * HARM-GP's acceptance arithmetic (not part of the statement, modelled for the replay): `harm_accept_prob_*`
+
+Composition with the library components (`Core/LoopsCompose.lean`; second half of this file):
+* the loops run with the C08 model of `HallOfFame(maxsize ≥ 1)`: "its best entry is at least as good as any
+  fitness ever logged"                                     → `hof_best_ge_logged` (+`_gu`), `hof_best_never_worse`,
+                                                             `hall_of_fame_never_blocks`
+* the loops run with the C06 models of `selBest` / `selTournament` / `selRandom` as `toolbox.select`
+                                                           → `eaSimpleC/eaMuPlusLambdaC/eaMuCommaLambdaC_correct`,
+                                                             `plus_monotone_selBest`; the clause is FALSE for
+                                                             μ,λ and for a tournament: `comma_not_monotone`,
+                                                             `tournament_not_monotone`
+* "the caller's population list is updated in place": list objects have identities
+                                                           → `population_updated_in_place`,
+                                                             `rebinding_is_not_in_place`
+* eaGenerateUpdate's ask/tell protocol                     → `generate_update_protocol`
 -/
 import DeapModel.Lemmas.C03
 import DeapModel.Lemmas.C03Harm
+import DeapModel.Lemmas.C03Compose
+import DeapModel.Lemmas.C03ComposeList
+import DeapModel.Lemmas.C03ComposeSel
 import Mathlib.Analysis.Complex.ExponentialBounds
 
 namespace C03
@@ -512,5 +529,499 @@ example : OpContract C02.demoOps ∧ (0 < 2) ∧ Init demoEv demoState ∧ demoP
 def demoFitHeap : Heap := fun o => ⟨[], some [[6, 15, 15, 24].getD o 0]⟩
 example : selBest demoFitHeap [0, 1, 2, 3] 3 = [3, 1, 2] := by
   simp +decide [selBest, List.mergeSort, List.MergeSort.Internal.splitInTwo, fitKey, demoFitHeap]
+
+/-! # Composition with the library components
+
+The machine of `Core/LoopsCompose.lean` runs the same generations (`Loops.generation`) with
+* the C08 model of `tools.HallOfFame(maxsize)` (default similarity: equal genotypes) fed by every
+  `halloffame.update` call of the loop,
+* the C06 models of `tools.selBest / selWorst / selRandom / selTournament` as `toolbox.select`,
+* list objects with identities (`population[:] = …` versus `population = …`),
+* the ask/tell state of the strategy behind `toolbox.generate` / `toolbox.update`. -/
+
+open LoopsC
+
+/-- What is assumed of the caller's arguments in the composed machine: C03's `Init`, a fresh
+`HallOfFame(m)` (its deep copies get identities from `base` on), and `population` refers to a list object
+holding the population. -/
+structure CInit (ev : List Int → List Int) (m base : Nat) (c : CState) : Prop where
+  init : Init ev c.ls
+  hof : c.hof = Archive.empty m base
+  hist : c.hist = []
+  refLt : c.popRef < c.nextL
+  listPop : c.lists c.popRef = c.ls.pop
+
+/-- the demo population, a `HallOfFame(2)`, the caller's list is list object 0 -/
+def demoC : CState := initState demoState.st demoState.pop 2 100
+
+theorem demoCInit : CInit demoEv 2 100 demoC where
+  init := demoInit
+  hof := rfl
+  hist := rfl
+  refLt := by decide
+  listPop := rfl
+
+/-- Generation 0 of the composed machine establishes the composed invariant. -/
+theorem composed_gen0_establishes {m base : Nat} (c c0 : CState) (hi : CInit ev m base c)
+    (h : cgen0 ev c = some c0) : CInv ev m base 1 c0 :=
+  cgen0_inv ev m base c c0 hi.init.alloc hi.init.truthful hi.init.distinct hi.init.log hi.init.evals
+    hi.init.shown hi.init.shownObj hi.hof hi.hist hi.refLt hi.listPop h
+
+example : CInit demoEv 2 100 demoC ∧ (cgen0 demoEv demoC).isSome = true := ⟨demoCInit, by decide⟩
+
+/-- **The composed run is a run of the machine the generic theorems are about**: projected on the loop
+state it is `runPop` over the same steps — so `truthful`, `evals_exact`, `nevals_logged`, `log_shape`,
+`hof_fed`, the sizes … hold for the loops run with the library components. -/
+theorem composed_refines (steps : List (Step σ × Assign)) (t t' : σ) (c c' : CState)
+    (h : crunPop ev steps t c = some (t', c')) :
+    runPop ev (steps.map (·.1)) t c.ls = some (t', c'.ls) := by
+  simp only [crunPop] at h
+  split at h
+  · simp at h
+  next c0 h0 =>
+    have := crunGens_ls steps 1 t t' c0 c' h
+    rw [(hofUpdate_spec h0).1] at this
+    exact this
+
+/-- **A hall of fame of capacity ≥ 1 never makes a run fail**: the composed run succeeds exactly when the
+plain run does (C08 `never_raises`, discharged from the invariant "the archive is the C08 model run on the
+batches shown so far"). -/
+theorem hall_of_fame_never_blocks {m base : Nat} (hm : 1 ≤ m) (steps : List (Step σ × Assign))
+    (hc : ∀ x ∈ steps, StepContract x.1) (t : σ) (c : CState) (hi : CInit ev m base c) :
+    (crunPop ev steps t c).isSome = (runPop ev (steps.map (·.1)) t c.ls).isSome := by
+  obtain ⟨c0, h0⟩ := cgen0_total ev m base hm c hi.hof
+  have hinv := composed_gen0_establishes c c0 hi h0
+  simp only [crunPop, h0, runPop]
+  rw [crunGens_isSome hm steps 1 t c0 hc hinv, (hofUpdate_spec h0).1]
+
+example : (1 ≤ 2) ∧ CInit demoEv 2 100 demoC := ⟨by decide, demoCInit⟩
+
+/-- **Hall of fame: the best entry is at least as good as any fitness ever logged**
+(eaSimple / eaMuPlusLambda / eaMuCommaLambda / harm run with `HallOfFame(m)`, `m ≥ 1`, any steps meeting the
+contract).  At the boundary reached after the generations `a ++ b`, the first member of the archive is at
+least as good (lexicographic order of the weighted values, C01) as
+* every individual `halloffame.update` was ever shown, with the fitness it carried then — that is every
+  evaluated individual (`hof_fed`), and
+* every member of the population at the EARLIER boundary reached after `a` (what the statistics of that
+  generation logged); `b = []` is the current population.
+C08 hypotheses used, all discharged from the loop invariant: capacity ≥ 1 (given); the similarity is
+reflexive, symmetric and blind to object identity (`simBase_simEq`: equal genotypes); similar individuals
+shown carry equal fitness (`hof_shown_evaluated`: every individual shown carries `evaluate` of its genotype,
+so equal genotypes carry equal fitness); the archive is the result of `update` on the batches shown, starting
+empty (composed invariant).  Transitivity, room, freshness are not needed. -/
+theorem hof_best_ge_logged {m base : Nat} (hm : 1 ≤ m) (a b : List (Step σ × Assign))
+    (hc : ∀ x ∈ a ++ b, StepContract x.1) (t t1 t' : σ) (c c1 c' : CState) (hi : CInit ev m base c)
+    (h1 : crunPop ev a t c = some (t1, c1))
+    (h2 : crunGens ev b (1 + a.length) t1 c1 = some (t', c')) :
+    (∀ e ∈ c'.ls.shownObj, ∃ best, c'.hof.items.head? = some best ∧
+        keyLe (e.2.fit.getD []) best.fit.wvalues) ∧
+    (∀ p ∈ c1.ls.pop, ∃ best, c'.hof.items.head? = some best ∧
+        keyLe (fitKey c1.ls.st.heap p) best.fit.wvalues) := by
+  simp only [crunPop] at h1
+  split at h1
+  · simp at h1
+  next c0 h0 =>
+    have hinv0 := composed_gen0_establishes c c0 hi h0
+    have hinv1 := crunGens_inv a 1 t t1 c0 c1 (fun x hx => hc x (by simp [hx])) hinv0 h1
+    have hinv' := crunGens_inv b (1 + a.length) t1 t' c1 c' (fun x hx => hc x (by simp [hx])) hinv1 h2
+    refine ⟨cinv_best_ge_shown hm hinv', ?_⟩
+    intro p hp
+    have hsh := crunGens_shown_mono b _ t1 t' c1 c' h2 _ (hinv1.popCur p hp)
+    exact cinv_best_ge_shown hm hinv' _ hsh
+
+example : (1 ≤ 2) ∧ CInit demoEv 2 100 demoC ∧
+    (crunPop demoEv (inPlace [plusSelStep C02.demoOps 2 3 ⟨[Choice.cx 0 2, Choice.mutn 1, Choice.rep 2], .best⟩])
+      () demoC).isSome = true :=
+  ⟨by decide, demoCInit, by simp only [plusSelStep_best_eval]; decide +kernel⟩
+
+/-- … in DEAP's own operator: `halloffame[0].fitness < f` is `False` for every fitness `f` logged. -/
+theorem hof_best_not_lt_logged {m base : Nat} (hm : 1 ≤ m) (steps : List (Step σ × Assign))
+    (hc : ∀ x ∈ steps, StepContract x.1) (t t' : σ) (c c' : CState) (hi : CInit ev m base c)
+    (h : crunPop ev steps t c = some (t', c')) :
+    ∀ p ∈ c'.ls.pop, ∃ best, c'.hof.items.head? = some best ∧
+      Fitness.lt best.fit ⟨fitKey c'.ls.st.heap p⟩ = false := by
+  intro p hp
+  obtain ⟨best, hb, hle⟩ := (hof_best_ge_logged hm steps [] (by simpa using hc) t t' t' c c' c' hi h rfl).2 p hp
+  refine ⟨best, hb, ?_⟩
+  cases hlt : Fitness.lt best.fit ⟨fitKey c'.ls.st.heap p⟩ with
+  | false => rfl
+  | true =>
+    exact absurd ((C08L.fitlt_iff best.fit ⟨fitKey c'.ls.st.heap p⟩).1 hlt) ((keyLe_iff_not_lt _ _).1 hle)
+
+example : (1 ≤ 2) ∧ CInit demoEv 2 100 demoC ∧ (crunPop demoEv (inPlace [simpleStep C02.demoOps
+    ⟨[2, 0, 0], [true], [false, false, false]⟩]) () demoC).isSome = true :=
+  ⟨by decide, demoCInit, by decide +kernel⟩
+
+/-- **The best entry never gets worse** from one boundary to a later one. -/
+theorem hof_best_never_worse {m base : Nat} (hm : 1 ≤ m) (a b : List (Step σ × Assign))
+    (hc : ∀ x ∈ a ++ b, StepContract x.1) (t t1 t' : σ) (c c1 c' : CState) (hi : CInit ev m base c)
+    (h1 : crunPop ev a t c = some (t1, c1))
+    (h2 : crunGens ev b (1 + a.length) t1 c1 = some (t', c')) :
+    ∀ b1, c1.hof.items.head? = some b1 → ∃ b2, c'.hof.items.head? = some b2 ∧
+      keyLe b1.fit.wvalues b2.fit.wvalues := by
+  simp only [crunPop] at h1
+  split at h1
+  · simp at h1
+  next c0 h0 =>
+    have hinv0 := composed_gen0_establishes c c0 hi h0
+    have hinv1 := crunGens_inv a 1 t t1 c0 c1 (fun x hx => hc x (by simp [hx])) hinv0 h1
+    have hinv' := crunGens_inv b (1 + a.length) t1 t' c1 c' (fun x hx => hc x (by simp [hx])) hinv1 h2
+    intro b1 hb1
+    -- the old best is a copy of an individual shown, and everything shown stays shown
+    obtain ⟨x, hx, _, hf⟩ := C08.members_shown simEq hm hinv1.hofRun b1 (List.mem_of_head? hb1)
+    rw [hinv1.flat] at hx
+    obtain ⟨e, he, rfl⟩ := List.mem_map.1 hx
+    obtain ⟨b2, hb2, hle⟩ := cinv_best_ge_shown hm hinv' e (crunGens_shown_mono b _ t1 t' c1 c' h2 e he)
+    exact ⟨b2, hb2, by rw [hf]; exact hle⟩
+
+/-- a run of one generation followed by one more generation (the two boundaries of `hof_best_never_worse`) -/
+example : (1 ≤ 2) ∧ CInit demoEv 2 100 demoC ∧
+    ((crunPop demoEv (inPlace [simpleStep C02.demoOps ⟨[2, 0, 0], [true], [false, false, false]⟩]) () demoC).bind
+      (fun r => crunGens demoEv (inPlace [simpleStep C02.demoOps ⟨[0, 1, 2], [false], [false, false, true]⟩])
+        (1 + 1) r.1 r.2)).isSome = true :=
+  ⟨by decide, demoCInit, by decide +kernel⟩
+
+/-- … and for eaGenerateUpdate run with `HallOfFame(m)`: after every generation the best entry is at least as
+good as every individual `generate` ever handed out, as evaluated, and as every member of the current
+population. -/
+theorem hof_best_ge_logged_gu {m base : Nat} (hm : 1 ≤ m) (gens : List (List (Nat × Obj) × List Nat))
+    (t t' : σ) (st : St) (c' : CState) (h : eaGenerateUpdateC ev gens t st m base = some (t', c')) :
+    (∀ e ∈ c'.ls.shownObj, ∃ best, c'.hof.items.head? = some best ∧
+        keyLe (e.2.fit.getD []) best.fit.wvalues) ∧
+    (∀ p ∈ c'.ls.pop, ∃ best, c'.hof.items.head? = some best ∧
+        keyLe (fitKey c'.ls.st.heap p) best.fit.wvalues) := by
+  obtain ⟨hi0, hp0⟩ := initState_inv ev st m base
+  obtain ⟨hinv, _⟩ := crunGU_inv gens 0 t t' _ c' hi0 hp0 h
+  exact ⟨cinv_best_ge_shown hm hinv, fun p hp => cinv_best_ge_shown hm hinv _ (hinv.popCur p hp)⟩
+
+/-- two generations of an ask/tell strategy (as `demoGU`) with a `HallOfFame(1)` -/
+def demoGUC := eaGenerateUpdateC (σ := Unit) demoEv
+  [([(0, ⟨[1, 2], none⟩), (1, ⟨[3], none⟩)], [1, 0]),
+   ([(1, ⟨[5, 5], some [3]⟩), (0, ⟨[0], some [3]⟩)], [0, 1])] () { heap := fun _ => ⟨[], none⟩, next := 0 } 1 100
+
+example : (1 ≤ 1) ∧ demoGUC.isSome = true := ⟨by decide, by decide +kernel⟩
+example : demoGUC.map (fun r => (r.2.ls.pop, r.2.hof.items.map (fun i => (i.genome, i.fit.wvalues)))) =
+    some ([1, 0], [([5, 5], [10])]) := by decide +kernel
+
+/-! ## The loops with the library selectors -/
+
+/-- eaSimple with a library selector (`selBest`, `selWorst`, `selRandom`, `selTournament`: the C06 models)
+and `HallOfFame(m)`: truthful, log 0..ngen, size kept, nevals, hall of fame shown every evaluated individual. -/
+theorem eaSimpleC_correct (hc : OpContract ops) (decs : List SimpleSelDec) (t t' : σ) (c c' : CState)
+    {m base : Nat} (hi : CInit ev m base c) (h : eaSimpleC ops ev decs t c = some (t', c')) :
+    (∀ p ∈ c'.ls.pop, (c'.ls.st.heap p).fit = some (ev (c'.ls.st.heap p).genome)) ∧
+    c'.ls.log.map (·.1) = List.range (decs.length + 1) ∧
+    c'.ls.pop.length = c.ls.pop.length ∧
+    (∀ rec ∈ c'.ls.log, rec.2 = (c'.ls.evals.filter (fun e => e.1 == rec.1)).length) ∧ c'.ls.evals.Nodup ∧
+    (∀ e ∈ c'.ls.evals, e.2 ∈ c'.ls.shown) ∧ (∀ p ∈ c'.ls.pop, p ∈ c'.ls.shown) := by
+  have hr := composed_refines _ t t' c c' h
+  rw [inPlace_fst] at hr
+  have hsc : ∀ stp ∈ decs.map (simpleSelStep ops), StepContract stp ∧ SizeIs stp id := by
+    intro stp hm
+    obtain ⟨d, _, rfl⟩ := List.mem_map.1 hm
+    exact ⟨simpleSelStep_contract hc d, simpleSelStep_size hc d⟩
+  have hsc' : ∀ stp ∈ decs.map (simpleSelStep ops), StepContract stp := fun x hx => (hsc x hx).1
+  have h0 := gen0_establishes c.ls hi.init
+  have hn := nevals_logged _ hsc' 1 t t' _ c'.ls h0 hr
+  have hh := hof_fed _ hsc' 1 t t' _ c'.ls h0 hr
+  refine ⟨truthful _ hsc' 1 t t' _ c'.ls h0 hr, ?_, ?_, hn.1, hn.2, hh.1, hh.2⟩
+  · simpa using log_shape _ hsc' t t' c.ls c'.ls hi.init hr
+  · exact runGens_size_id _ 1 t t' (gen0 ev c.ls) c'.ls hsc h0 hr
+
+/-- two generations of eaSimple with `selTournament(tournsize=2)`: the six `random.choice` results of each
+call are on the tape -/
+def demoSimpleC := eaSimpleC C02.demoOps demoEv
+  [⟨.tournament 2 [2, 0, 0, 1, 1, 1], [true], [false, false, false]⟩,
+   ⟨.tournament 2 [0, 1, 1, 2, 0, 0], [false], [false, false, true]⟩] () demoC
+example : OpContract C02.demoOps ∧ CInit demoEv 2 100 demoC ∧ demoSimpleC.isSome = true :=
+  ⟨C02.demoOps_contract, demoCInit, by decide +kernel⟩
+
+/-- eaMuPlusLambda with a library selector, μ ≤ λ. -/
+theorem eaMuPlusLambdaC_correct (hc : OpContract ops) (mu lam : Nat) (hle : mu ≤ lam) (decs : List MuLamSelDec)
+    (t t' : σ) (c c' : CState) {m base : Nat} (hi : CInit ev m base c)
+    (h : eaMuPlusLambdaC ops ev mu lam decs t c = some (t', c')) :
+    (∀ p ∈ c'.ls.pop, (c'.ls.st.heap p).fit = some (ev (c'.ls.st.heap p).genome)) ∧
+    c'.ls.log.map (·.1) = List.range (decs.length + 1) ∧
+    (decs ≠ [] → c'.ls.pop.length = mu) ∧
+    (∀ rec ∈ c'.ls.log, rec.2 = (c'.ls.evals.filter (fun e => e.1 == rec.1)).length) ∧ c'.ls.evals.Nodup ∧
+    (∀ e ∈ c'.ls.evals, e.2 ∈ c'.ls.shown) ∧ (∀ p ∈ c'.ls.pop, p ∈ c'.ls.shown) := by
+  have hr := composed_refines _ t t' c c' h
+  rw [inPlace_fst] at hr
+  have hsc : ∀ stp ∈ decs.map (plusSelStep ops mu lam), StepContract stp ∧ SizeIs stp (fun _ => mu) := by
+    intro stp hm
+    obtain ⟨d, _, rfl⟩ := List.mem_map.1 hm
+    exact ⟨plusSelStep_contract hc mu lam d, plusSelStep_size hc mu lam hle d⟩
+  have hsc' : ∀ stp ∈ decs.map (plusSelStep ops mu lam), StepContract stp := fun x hx => (hsc x hx).1
+  have h0 := gen0_establishes c.ls hi.init
+  have hn := nevals_logged _ hsc' 1 t t' _ c'.ls h0 hr
+  have hh := hof_fed _ hsc' 1 t t' _ c'.ls h0 hr
+  refine ⟨truthful _ hsc' 1 t t' _ c'.ls h0 hr, ?_, ?_, hn.1, hn.2, hh.1, hh.2⟩
+  · simpa using log_shape _ hsc' t t' c.ls c'.ls hi.init hr
+  · intro hne
+    exact runGens_size_const mu _ 1 t t' _ c'.ls (by simpa using hne) hsc h0 hr
+
+/-- one generation of μ+λ (μ = 2 ≤ λ = 3) with `selTournament(tournsize=2)`: candidates 0,1,2,3,5,6 with
+fitnesses 6, 15, 24, 18, −15, 24; the tournaments {2,4} and {1,0} are won by #2 and #1 -/
+def demoPlusC := eaMuPlusLambdaC C02.demoOps demoEv 2 3
+  [⟨[Choice.cx 0 2, Choice.mutn 1, Choice.rep 2], .tournament 2 [2, 4, 1, 0]⟩] () demoC
+example : OpContract C02.demoOps ∧ (2 ≤ 3) ∧ CInit demoEv 2 100 demoC ∧
+    demoPlusC.map (fun r => (r.2.ls.pop, r.2.ls.log)) = some ([2, 1], [(0, 2), (1, 2)]) :=
+  ⟨C02.demoOps_contract, by decide, demoCInit, by decide +kernel⟩
+
+/-- eaMuCommaLambda with a library selector (a run exists only when `mu ≤ lambda_`). -/
+theorem eaMuCommaLambdaC_correct (hc : OpContract ops) (mu lam : Nat) (decs : List MuLamSelDec)
+    (t t' : σ) (c c' : CState) {m base : Nat} (hi : CInit ev m base c)
+    (h : eaMuCommaLambdaC ops ev mu lam decs t c = some (t', c')) :
+    mu ≤ lam ∧
+    (∀ p ∈ c'.ls.pop, (c'.ls.st.heap p).fit = some (ev (c'.ls.st.heap p).genome)) ∧
+    c'.ls.log.map (·.1) = List.range (decs.length + 1) ∧
+    (decs ≠ [] → c'.ls.pop.length = mu) ∧
+    (∀ rec ∈ c'.ls.log, rec.2 = (c'.ls.evals.filter (fun e => e.1 == rec.1)).length) ∧ c'.ls.evals.Nodup ∧
+    (∀ e ∈ c'.ls.evals, e.2 ∈ c'.ls.shown) ∧ (∀ p ∈ c'.ls.pop, p ∈ c'.ls.shown) := by
+  simp only [eaMuCommaLambdaC] at h
+  split at h
+  case isFalse => simp at h
+  next hle0 =>
+  have hle : mu ≤ lam := by simpa [commaAssert] using hle0
+  have hr := composed_refines _ t t' c c' h
+  rw [inPlace_fst] at hr
+  have hsc : ∀ stp ∈ decs.map (commaSelStep ops mu lam), StepContract stp ∧ SizeIs stp (fun _ => mu) := by
+    intro stp hm
+    obtain ⟨d, _, rfl⟩ := List.mem_map.1 hm
+    exact ⟨commaSelStep_contract hc mu lam d, commaSelStep_size hc mu lam hle d⟩
+  have hsc' : ∀ stp ∈ decs.map (commaSelStep ops mu lam), StepContract stp := fun x hx => (hsc x hx).1
+  have h0 := gen0_establishes c.ls hi.init
+  have hn := nevals_logged _ hsc' 1 t t' _ c'.ls h0 hr
+  have hh := hof_fed _ hsc' 1 t t' _ c'.ls h0 hr
+  refine ⟨hle, truthful _ hsc' 1 t t' _ c'.ls h0 hr, ?_, ?_, hn.1, hn.2, hh.1, hh.2⟩
+  · simpa using log_shape _ hsc' t t' c.ls c'.ls hi.init hr
+  · intro hne
+    exact runGens_size_const mu _ 1 t t' _ c'.ls (by simpa using hne) hsc h0 hr
+
+/-- one generation of μ,λ (μ = 2, λ = 3) with `selRandom` drawing offspring 2 and 0; `lambda_ < mu` is the
+assertion -/
+def demoCommaC := eaMuCommaLambdaC C02.demoOps demoEv 2 3
+  [⟨[Choice.cx 0 2, Choice.mutn 1, Choice.rep 2], .random [2, 0]⟩] () demoC
+example : OpContract C02.demoOps ∧ CInit demoEv 2 100 demoC ∧
+    demoCommaC.map (fun r => (r.2.ls.pop, r.2.ls.log)) = some ([6, 3], [(0, 2), (1, 2)]) :=
+  ⟨C02.demoOps_contract, demoCInit, by decide +kernel⟩
+example : (eaMuCommaLambdaC C02.demoOps demoEv 3 2 [] () demoC).isNone = true := by decide
+
+/-- **μ+λ with `tools.selBest` (the C06 model: stable descending sort on the C01 order, first μ), μ ≥ 1: the
+best never gets worse**, for every variation tape: for every member of the population before a sequence of
+generations there is a member afterwards whose fitness is at least as good.  (C06 `best_sorted`: no omitted
+candidate is better than a kept one; the old population is among the candidates `population + offspring`.) -/
+theorem plus_monotone_selBest (hc : OpContract ops) (mu lam : Nat) (hmu : 0 < mu) (decs : List (List Choice))
+    (g : Nat) (t t' : σ) (s s' : LState) (hinv : Inv ev g s)
+    (h : runGens ev (decs.map (fun ch => plusSelStep ops mu lam ⟨ch, .best⟩)) g t s = some (t', s')) :
+    ∀ p ∈ s.pop, ∃ q ∈ s'.pop, keyLe (fitKey s.st.heap p) (fitKey s'.st.heap q) :=
+  plusSelBest_run_monotone hc hmu decs g t t' s s' hinv h
+
+/-- **The truncation selection of `plus_monotone` / `eaMuPlusLambdaBest` IS the C06 model of `tools.selBest`**:
+the step with the abstract truncation selection of `Core/Loops.lean` and the step with `Selection.selBest`
+reading the loop's heap are the same step (same individuals, same order, ties included). -/
+theorem truncation_is_selBest (mu lam : Nat) (choices : List Choice) :
+    plusBestStep ops mu lam choices = plusSelStep ops mu lam ⟨choices, .best⟩ :=
+  plusBestStep_eq_plusSelStep ops mu lam choices
+
+/-- the hypotheses of `plus_monotone_selBest` on the demo population after generation 0 -/
+example : OpContract C02.demoOps ∧ (0 < 2) ∧ Inv demoEv 1 (gen0 demoEv demoState) ∧
+    (runGens demoEv ([[Choice.cx 0 2, Choice.mutn 1, Choice.rep 2]].map
+      (fun ch => plusSelStep C02.demoOps 2 3 ⟨ch, .best⟩)) 1 () (gen0 demoEv demoState)).isSome = true :=
+  ⟨C02.demoOps_contract, by decide, gen0_establishes demoState demoInit,
+    by simp only [List.map, plusSelStep_best_eval]; decide +kernel⟩
+
+/-- … over a whole composed `eaMuPlusLambda` run with `selBest` and a hall of fame, from generation 0 on. -/
+theorem eaMuPlusLambdaC_selBest_monotone (hc : OpContract ops) (mu lam : Nat) (hmu : 0 < mu)
+    (decs : List (List Choice)) (t t' : σ) (c c' : CState) {m base : Nat} (hi : CInit ev m base c)
+    (h : eaMuPlusLambdaC ops ev mu lam (decs.map (fun ch => ⟨ch, .best⟩)) t c = some (t', c')) :
+    ∀ p ∈ c.ls.pop, ∃ q ∈ c'.ls.pop, keyLe (fitKey (gen0 ev c.ls).st.heap p) (fitKey c'.ls.st.heap q) := by
+  have hr := composed_refines _ t t' c c' h
+  rw [inPlace_fst, List.map_map] at hr
+  exact plus_monotone_selBest hc mu lam hmu decs 1 t t' _ c'.ls (gen0_establishes c.ls hi.init) hr
+
+example : OpContract C02.demoOps ∧ (0 < 2) ∧ CInit demoEv 2 100 demoC ∧
+    (eaMuPlusLambdaC C02.demoOps demoEv 2 3
+      ([[Choice.cx 0 2, Choice.mutn 1, Choice.rep 2]].map (fun ch => ⟨ch, .best⟩)) () demoC).isSome = true :=
+  ⟨C02.demoOps_contract, by decide, demoCInit,
+    by simp only [eaMuPlusLambdaC, List.map, plusSelStep_best_eval]; decide +kernel⟩
+
+/-- the selection the composed machine computes: candidates `population + offspring` = oids 0,1,2,3,5,6
+with fitnesses 6, 15, 24, 18, -15, 24; `selBest(…, 2)` keeps #2 and its copy #6 (ties in list order) -/
+example : (eaMuPlusLambdaC C02.demoOps demoEv 2 3
+      ([[Choice.cx 0 2, Choice.mutn 1, Choice.rep 2]].map (fun ch => ⟨ch, .best⟩)) () demoC).map
+      (fun r => (r.2.ls.pop, r.2.hof.items.map (fun i => (i.genome, i.fit.wvalues)))) =
+    some ([2, 6], [([7, 8, 9], [24]), ([1, 8, 9], [18])]) := by
+  simp only [eaMuPlusLambdaC, List.map, plusSelStep_best_eval]
+  decide +kernel
+
+/-- **The clause needs "μ+λ" — with μ,λ it is false**: one generation of eaMuCommaLambda with `selBest`
+(μ = λ = 1) on the demo population: the only offspring is a mutant of #2 (fitness −24), the population's best
+falls from 24 to −24 although every guarantee of `eaMuCommaLambdaC_correct` holds. -/
+theorem comma_not_monotone :
+    ∃ (c' : CState), OpContract C02.demoOps ∧ CInit demoEv 2 100 demoC ∧
+      eaMuCommaLambdaC C02.demoOps demoEv 1 1 [⟨[Choice.mutn 2], .best⟩] () demoC = some ((), c') ∧
+      ∃ p ∈ demoC.ls.pop, ∀ q ∈ c'.ls.pop,
+        ¬ keyLe (fitKey (gen0 demoEv demoC.ls).st.heap p) (fitKey c'.ls.st.heap q) := by
+  have hsome : (eaMuCommaLambdaC C02.demoOps demoEv 1 1 [⟨[Choice.mutn 2], .best⟩] () demoC).isSome = true := by
+    simp only [eaMuCommaLambdaC, List.map, commaSelStep_best_eval]
+    decide +kernel
+  obtain ⟨⟨u, c'⟩, hc'⟩ := Option.isSome_iff_exists.1 hsome
+  have hview : (eaMuCommaLambdaC C02.demoOps demoEv 1 1 [⟨[Choice.mutn 2], .best⟩] () demoC).map
+      (fun r => (r.2.ls.pop, r.2.ls.pop.map (fitKey r.2.ls.st.heap))) = some ([3], [[-24]]) := by
+    simp only [eaMuCommaLambdaC, List.map, commaSelStep_best_eval]
+    decide +kernel
+  rw [hc'] at hview
+  simp only [Option.map_some, Option.some.injEq, Prod.mk.injEq] at hview
+  obtain ⟨hpop, hfit⟩ := hview
+  refine ⟨c', C02.demoOps_contract, demoCInit, hc', 2, by decide, ?_⟩
+  intro q hq
+  rw [hpop] at hq hfit
+  simp only [List.mem_singleton] at hq
+  subst hq
+  simp only [List.map_cons, List.map_nil, List.cons.injEq, and_true] at hfit
+  have h24 : fitKey (gen0 demoEv demoC.ls).st.heap 2 = [24] := by decide +kernel
+  rw [hfit, h24]
+  unfold keyLe
+  decide
+
+/-- **… and "truncation selection" — with a tournament it is false** even for μ+λ: `selTournament` with
+`tournsize = 1` whose draw picks candidate 0 (fitness 6) out of `population + offspring`: the best falls from
+24 to 6. -/
+theorem tournament_not_monotone :
+    ∃ (c' : CState), OpContract C02.demoOps ∧ CInit demoEv 2 100 demoC ∧
+      eaMuPlusLambdaC C02.demoOps demoEv 1 1 [⟨[Choice.rep 0], .tournament 1 [0]⟩] () demoC = some ((), c') ∧
+      ∃ p ∈ demoC.ls.pop, ∀ q ∈ c'.ls.pop,
+        ¬ keyLe (fitKey (gen0 demoEv demoC.ls).st.heap p) (fitKey c'.ls.st.heap q) := by
+  have hsome : (eaMuPlusLambdaC C02.demoOps demoEv 1 1 [⟨[Choice.rep 0], .tournament 1 [0]⟩] () demoC).isSome = true := by
+    decide +kernel
+  obtain ⟨⟨u, c'⟩, hc'⟩ := Option.isSome_iff_exists.1 hsome
+  have hview : (eaMuPlusLambdaC C02.demoOps demoEv 1 1 [⟨[Choice.rep 0], .tournament 1 [0]⟩] () demoC).map
+      (fun r => (r.2.ls.pop, r.2.ls.pop.map (fitKey r.2.ls.st.heap))) = some ([0], [[6]]) := by decide +kernel
+  rw [hc'] at hview
+  simp only [Option.map_some, Option.some.injEq, Prod.mk.injEq] at hview
+  obtain ⟨hpop, hfit⟩ := hview
+  refine ⟨c', C02.demoOps_contract, demoCInit, hc', 2, by decide, ?_⟩
+  intro q hq
+  rw [hpop] at hq hfit
+  simp only [List.mem_singleton] at hq
+  subst hq
+  simp only [List.map_cons, List.map_nil, List.cons.injEq, and_true] at hfit
+  have h24 : fitKey (gen0 demoEv demoC.ls).st.heap 2 = [24] := by decide +kernel
+  rw [hfit, h24]
+  unfold keyLe
+  decide
+
+/-! ## The caller's list object -/
+
+/-- **The caller's population list is updated in place.**  In eaSimple, eaMuPlusLambda, eaMuCommaLambda and
+harm (every loop whose generations store the next population with `population[:] = …`; `inPlace steps`), at
+every boundary: the variable `population` — what the loop returns — still refers to the list object the
+caller passed, that object holds the current population, and no other list object the caller could hold has
+been written. -/
+theorem population_updated_in_place {m base : Nat} (steps : List (Step σ)) (hc : ∀ stp ∈ steps, StepContract stp)
+    (t t' : σ) (c c' : CState) (hi : CInit ev m base c)
+    (h : crunPop ev (inPlace steps) t c = some (t', c')) :
+    c'.popRef = c.popRef ∧ c'.lists c.popRef = c'.ls.pop ∧
+    ∀ i, i < c.nextL → i ≠ c.popRef → c'.lists i = c.lists i := by
+  simp only [crunPop] at h
+  split at h
+  · simp at h
+  next c0 h0 =>
+    obtain ⟨_, _, _, hlists, hnextL, hpopRef, _⟩ := hofUpdate_spec h0
+    have hinv0 := composed_gen0_establishes c c0 hi h0
+    have hinv' := crunGens_inv (inPlace steps) 1 t t' c0 c'
+      (fun x hx => by
+        obtain ⟨s, hs, rfl⟩ := List.mem_map.1 hx
+        exact hc s hs) hinv0 h
+    obtain ⟨hp, _, hf⟩ := crunGens_inPlace steps 1 t t' c0 c' hinv0.refLt h
+    refine ⟨by rw [hp, hpopRef], ?_, ?_⟩
+    · have := hinv'.listPop
+      rw [hp, hpopRef] at this
+      exact this
+    · intro i hi1 hne
+      rw [hf i (by rw [hnextL]; exact hi1) (by rw [hpopRef]; exact hne), hlists]
+
+example : CInit demoEv 2 100 demoC ∧ (crunPop demoEv (inPlace [simpleStep C02.demoOps
+    ⟨[2, 0, 0], [true], [false, false, false]⟩]) () demoC).isSome = true := ⟨demoCInit, by decide +kernel⟩
+
+/-- **`population = offspring` would not do**: a generation that rebinds the variable leaves the caller's
+list object as it was — the machine distinguishes the two assignments.  (`eaGenerateUpdate`, which has no
+caller list, is the one loop that rebinds: `population = toolbox.generate()`.) -/
+theorem rebinding_is_not_in_place (stp : Step σ) (g : Nat) (t t' : σ) (c c' : CState)
+    (hlt : c.popRef < c.nextL) (h : cgeneration ev stp .rebind g t c = some (t', c')) :
+    c'.popRef ≠ c.popRef ∧ c'.lists c.popRef = c.lists c.popRef :=
+  cgeneration_rebind hlt h
+
+/-- a concrete generation of eaSimple stored with a plain assignment: the caller's list still holds the
+initial individuals 0, 1, 2 while the loop's population is 6, 7, 8 -/
+example : ((cgen0 demoEv demoC).bind (fun c0 => cgeneration demoEv (simpleStep C02.demoOps
+      ⟨[2, 0, 0], [true], [false, false, false]⟩) .rebind 1 () c0)).map
+      (fun r => (r.2.lists 0, r.2.ls.pop, r.2.popRef)) = some ([0, 1, 2], [3, 4, 5], 1) := by decide +kernel
+/-- … and with the slice assignment of the real code the caller's list holds the new population -/
+example : ((cgen0 demoEv demoC).bind (fun c0 => cgeneration demoEv (simpleStep C02.demoOps
+      ⟨[2, 0, 0], [true], [false, false, false]⟩) .slice 1 () c0)).map
+      (fun r => (r.2.lists 0, r.2.ls.pop, r.2.popRef)) = some ([3, 4, 5], [3, 4, 5], 0) := by decide +kernel
+
+/-! ## The ask/tell protocol of eaGenerateUpdate -/
+
+/-- **Generate–update protocol.**  In every run of eaGenerateUpdate (any `generate` results — new or
+persistent individuals, whatever fitness they carry —, any reordering by `update`, with a hall of fame):
+one `toolbox.update` call per generation `0..ngen-1`, in order; every individual handed to `update` in
+generation `g` was produced by the `generate` call of that generation (the strategy was waiting for exactly
+these objects, in this order; `asks` lists the same), it carries the fitness `evaluate` gives for its
+genotype, and the `evaluate` calls of generation `g` are exactly these individuals, in order, each once.
+Between generations the strategy is waiting for nothing. -/
+theorem generate_update_protocol {m base : Nat} (gens : List (List (Nat × Obj) × List Nat)) (t t' : σ)
+    (st : St) (c' : CState) (h : eaGenerateUpdateC ev gens t st m base = some (t', c')) :
+    c'.strat.pending = none ∧
+    c'.strat.tells.map (·.1) = List.range gens.length ∧
+    c'.strat.asks = c'.strat.tells.map (fun x => (x.1, x.2.2.map (·.1))) ∧
+    ∀ x ∈ c'.strat.tells,
+      x.2.1 = some (x.2.2.map (·.1)) ∧
+      (∀ e ∈ x.2.2, e.2.fit = some (ev e.2.genome)) ∧
+      c'.ls.evals.filter (fun e => e.1 == x.1) = (x.2.2.map (·.1)).map (fun o => (x.1, o)) ∧
+      (x.2.2.map (·.1)).Nodup := by
+  obtain ⟨hi0, hp0⟩ := initState_inv ev st m base
+  obtain ⟨_, hp⟩ := crunGU_inv gens 0 t t' _ c' hi0 hp0 h
+  refine ⟨hp.idle, by simpa using hp.tellsGen, hp.asks, ?_⟩
+  intro x hx
+  have := hp.tellsOk x hx
+  exact ⟨this.pending, this.evaluated, this.once, this.nodup⟩
+
+/-- the two generations of `demoGUC`: generation 1 hands back the persistent objects 1 and 0, moved; `update`
+receives them re-evaluated -/
+example : demoGUC.map (fun r => r.2.strat.asks) = some [(0, [0, 1]), (1, [1, 0])] := by decide +kernel
+example : demoGUC.map (fun r => r.2.strat.tells.map (fun x => (x.1, x.2.2.map (fun e => (e.1, e.2.fit.getD []))))) =
+    some [(0, [(0, [3]), (1, [3])]), (1, [(1, [10]), (0, [0])])] := by decide +kernel
+
+/-- the composed eaGenerateUpdate, projected on the loop state, is the `eaGenerateUpdate` of the generic
+theorems (`eaGenerateUpdate_correct` applies) -/
+theorem eaGenerateUpdateC_refines {m base : Nat} (gens : List (List (Nat × Obj) × List Nat)) (t t' : σ)
+    (st : St) (c' : CState) (h : eaGenerateUpdateC ev gens t st m base = some (t', c')) :
+    eaGenerateUpdate ev gens t st = some (t', c'.ls) := by
+  have key : ∀ (gens : List (List (Nat × Obj) × List Nat)) (g : Nat) (t t' : σ) (c c' : CState),
+      crunGU ev gens g t c = some (t', c') →
+      runGens ev (gens.map (fun x => guStep (σ := σ) x.1 x.2)) g t c.ls = some (t', c'.ls) := by
+    intro gens
+    induction gens with
+    | nil =>
+      intro g t t' c c' h
+      simp only [crunGU, Option.some.injEq, Prod.mk.injEq] at h
+      obtain ⟨rfl, rfl⟩ := h
+      rfl
+    | cons x rest ih =>
+      intro g t t' c c' h
+      simp only [crunGU] at h
+      split at h
+      · simp at h
+      next t1 c1 hgen =>
+        obtain ⟨c2, hc2, hls, _⟩ := guGeneration_unfold hgen
+        obtain ⟨ls', c3, hg, hu, rfl⟩ := cgeneration_unfold hc2
+        have hls' : c1.ls = ls' := by rw [hls, (assignPop_ls _ c3).1, (hofUpdate_spec hu).1]
+        simp only [List.map_cons, runGens, hg]
+        rw [← hls']
+        exact ih (g + 1) t1 t' c1 c' h
+  exact key gens 0 t t' _ c' h
 
 end C03
